@@ -186,3 +186,34 @@ def check_history_optimum(problem):
         return []
     sol = problem.history.optimum
     return check_reported_optimum(problem, sol.design, sol.objective, sol.is_feasible, sol.constraints, sol.constraint_jacobian)
+
+
+def check_pareto(problem, f_optima, x_optima):
+    """Return (clause, signature, message) items for a reported Pareto front of ``problem``'s recorded history.
+
+    Only what the property states: every reported point is a recorded feasible point with the recorded
+    objective vector, and no reported point is dominated by a feasible recorded one (g dominates f when
+    g <= f component-wise and g < f for one component).
+    """
+    out = []
+    entries = db_entries(problem)
+    cons = constraint_specs(problem)
+    tol_eq, tol_ineq = problem.tolerances.equality, problem.tolerances.inequality
+    obj = problem.objective.name
+    feas = []
+    for i, (x, o) in enumerate(entries):
+        v = o.get(obj)
+        if v is not None and feasible(o, cons, tol_eq, tol_ineq):
+            feas.append((i, x, _arr(v)))
+    for f, x in zip(np.atleast_2d(f_optima), np.atleast_2d(x_optima)):
+        match = [i for i, xe, fe in feas if np.array_equal(xe, x) and np.array_equal(fe, f, equal_nan=True)]
+        if not match:
+            out.append(("C04.pareto_point_recorded", "pareto", f"the reported Pareto point x={x} f={f} is not a feasible recorded point with that objective; feasible recorded: {[(i, xe.tolist(), fe.tolist()) for i, xe, fe in feas]}"))
+            continue
+        for i, xe, fe in feas:
+            if np.isnan(fe).any():
+                continue
+            if np.all(fe <= f) and np.any(fe < f):
+                out.append(("C04.pareto_dominated", "pareto", f"the reported Pareto point x={x} f={f} (entry {match[0]}) is dominated by the feasible recorded entry {i}: x={xe} f={fe}"))
+                break
+    return out
